@@ -302,6 +302,18 @@ func (p *peer) act(c net.Conn, pc *peerCipher, b behaviour) bool {
 		if _, err := c.Write(ct); err != nil {
 			return false
 		}
+	case "okPieces":
+		// the reply written in pieces of b.k bytes, without pauses
+		ct := enc(frameBytes(b.items, true, now.Unix(), int32(now.Nanosecond())))
+		for i := 0; i < len(ct); i += b.k {
+			e := i + b.k
+			if e > len(ct) {
+				e = len(ct)
+			}
+			if _, err := c.Write(ct[i:e]); err != nil {
+				return false
+			}
+		}
 	case "slow":
 		// answer after b.k milliseconds
 		time.Sleep(time.Duration(b.k) * time.Millisecond)
@@ -364,6 +376,13 @@ func (p *peer) act(c net.Conn, pc *peerCipher, b behaviour) bool {
 			n = len(ct)
 		}
 		c.Write(ct[:n])
+	case "badCrcThenFrame":
+		// a reply with a wrong checksum, and right behind it a second, well-formed frame
+		pl := frameBytes(b.items, true, now.Unix(), int32(now.Nanosecond()))
+		l := int(binary.LittleEndian.Uint16(pl[16:]))
+		pl[18+l] ^= 0x40
+		c.Write(enc(pl))
+		c.Write(enc(frameBytes(b.items, true, now.Unix(), int32(now.Nanosecond()))))
 	case "badCrcOnce":
 		// the reply is damaged the first time this behaviour acts (one flipped time-stamp bit, checksum untouched) and
 		// intact every later time
